@@ -380,6 +380,11 @@ func (im *impl) exec(f []string) (res string) {
 			return "nil"
 		}
 		return "v:" + enc(v)
+	case "tree":
+		if im.art != nil {
+			return im.art.VerifDump()
+		}
+		return "tree"
 	case "seq":
 		if im.art != nil {
 			return fmt.Sprintf("ws:%d:%d", im.art.WriteSeqNo, im.art.SnapshotSeqNo)
@@ -634,7 +639,7 @@ func (rn *runner) step(f []string, staleProbe bool) string {
 	rr := rn.r.exec(f)
 	fmt.Fprintf(out, "O\t%s\t=>\t%s\n", strings.Join(f, "\t"), ra)
 	heartbeat(rn.id, rn.idx, strings.Join(f, "\t"), true)
-	if f[0] != "seq" {
+	if f[0] != "seq" && f[0] != "tree" {
 		pcount("art-rbt-agree")
 		if ra != rr {
 			pfail("art-rbt-agree", rn.id, rn.idx, strings.Join(f, " "), "art="+ra, "rbt="+rr)
@@ -855,6 +860,21 @@ func (g *gen) mutator() []string {
 func (g *gen) observers(touched []byte, final bool) [][]string {
 	var r [][]string
 	r = append(r, []string{"len"}, []string{"size"}, []string{"dirty"}, []string{"seq"})
+	// structure differential: the shape of the real radix tree against L2 (Art.v)
+	switch g.cls {
+	case "fan":
+		if final || g.rng.Intn(5) == 0 {
+			r = append(r, []string{"tree"})
+		}
+	case "batch":
+		if final {
+			r = append(r, []string{"tree"})
+		}
+	default:
+		if touched != nil || final {
+			r = append(r, []string{"tree"})
+		}
+	}
 	cand := [][]byte{g.pickKey()}
 	if touched != nil {
 		cand = append(cand, touched)
@@ -1120,7 +1140,7 @@ func directed() {
 		for _, o := range ops {
 			rn.step(o, false)
 			if isMutator(o[0]) {
-				for _, ob := range [][]string{{"len"}, {"size"}, {"dirty"}, {"seq"}, {"iterf", "-", "-"}} {
+				for _, ob := range [][]string{{"len"}, {"size"}, {"dirty"}, {"seq"}, {"iterf", "-", "-"}, {"tree"}} {
 					rn.step(ob, false)
 				}
 			}
@@ -1234,7 +1254,7 @@ func replay(mode, path string) {
 			if o[0] == "set" || o[0] == "flags" {
 				keyset[o[1]] = true
 			}
-			for _, ob := range [][]string{{"len"}, {"size"}, {"dirty"}, {"seq"}, {"iterf", "-", "-"}, {"iter", "0", "-", "-"},
+			for _, ob := range [][]string{{"len"}, {"size"}, {"dirty"}, {"seq"}, {"tree"}, {"iterf", "-", "-"}, {"iter", "0", "-", "-"},
 				{"iter", "1", "-", "-"}, {"siter", "0", "-", "-"}, {"siter", "1", "-", "-"}} {
 				rn.step(ob, false)
 			}
